@@ -42,7 +42,9 @@ def _job(args):
     deadline = t0 + seconds
     out = {"part": part.name, "runs": 0, "events": 0, "keys": set(), "flags": {}, "faults": {},
            "samples": [], "violations": [], "foreign": {}, "harness": [], "states": set(),
-           "interleavings": set(), "probes": {}, "worker": worker, "complete": True, "sim_steps": 0}
+           "interleavings": set(), "probes": {}, "worker": worker, "complete": True, "sim_steps": 0,
+           "known": {}}
+    kf = findings.load()
     items = part.items(seed, tier, worker, nworkers)
     for idx, prog in items:
         if time.time() > deadline and not part.must_complete:
@@ -73,6 +75,10 @@ def _job(args):
             out["samples"].append(part.sample(prog, res))
         mine = res.for_prop(prop)
         if mine:
+            kn = findings.match(prop, kf, part, prog, mine[0].to_json())
+            if kn is not None:
+                out["known"][kn["id"]] = out["known"].get(kn["id"], 0) + 1
+                continue
             out["violations"].append({"idx": idx, "prog": prog, "v": mine[0].to_json(),
                                       "digest": res.digest})
             if len(out["violations"]) >= 3:
@@ -184,7 +190,7 @@ def main():
     exit_code = 0
     reported = []
     seen_sigs = set()
-    known_hit = {}
+    known_hit = _merge_counts(m["known"] for m in merged)
     for pname, v in violations:
         sig = v["v"]["sig"]
         if sig in seen_sigs:
